@@ -119,6 +119,23 @@ func k3Set(add func(name string, cfg int, funding [][2]int64, ops ...Op) *Histor
 		opRespond(1037, 1, 10, 0, modProvAtom, 200, 2, true),
 		opWithdraw(101, 0),
 		opEB(5*sec), opEB(5*sec), opEB(5*sec))
+	// W10i: a zero-height export in a state that holds the unbacked earning of a module-service call: the
+	// preparation cannot refund it out of the empty escrow (K3 facet of C19; K3_zero_height_export_fails_refuted).
+	add("W10i-module-service-then-export", 0, append(rich(101), [2]int64{111, 1000}),
+		opDefine(5, 101),
+		modCall(1046, 111),
+		Op{Kind: "export"})
+	// W10j: the module's provider address is bound as an ordinary provider AFTER the call: the provider holds an
+	// earning its new owner's record does not include, and the owner's withdrawal for it subtracts below zero
+	// (K3 facet of C20; K3_withdraw_panics_refuted).
+	add("W10j-module-provider-bound-later-withdraw", 0, append(rich(101), [2]int64{111, 1000}),
+		opDefine(1, 101),
+		opDefine(5, 101),
+		modCall(1047, 111),
+		opBind(1, modProvAtom, 101, base(6000), price("10"), 1),
+		opWithdraw(101, modProvAtom),
+		opEB(5*sec))
+
 	// W10f: what the module-service branch refuses: service not defined, ValidateBasic on the fields the handler
 	// then ignores (no provider, timeout 0), empty and foreign cap, malformed input; an unfunded consumer is
 	// accepted (the charge is 0).
